@@ -618,3 +618,12 @@ Proof.
     + cbn [negb fst snd]. split; reflexivity.
   - cbn [negb fst snd]. split; reflexivity.
 Qed.
+
+(* A change set kept across closing the handle and reopening the directory (finished sessions and
+   overlays do not borrow the handle) is not a change set of the new handle: its commit is refused
+   and changes nothing, whatever the committed state is; everything durable is what it was. *)
+Lemma cross_handle_refused : forall st id busy,
+  commit (reopen st) id busy = (reopen st, CUnknown) /\
+  cur (reopen st) = cur st /\ hist (reopen st) = hist st /\ seqn (reopen st) = seqn st /\
+  max_len (reopen st) = max_len st.
+Proof. intros st id busy. repeat split. Qed.
